@@ -221,7 +221,7 @@ def proj_dump(x):
                        for s in d["slots"])).strip()
 
 
-def shape_stage(ctx, res, nfonts, ntexts, as_failure=False, gen_kw=None, fontgen=None, textgen=None, pred=None, label=None):
+def shape_stage(ctx, res, nfonts, ntexts, as_failure=False, gen_kw=None, fontgen=None, textgen=None, pred=None, label=None, refusable=False):
     """whole-pipeline correspondence: synthesised fonts (both directions) shaped by the real engine (public API) and by the
     Lean pass-engine model (grdriver shape); glyph ids, associations and attachments must be identical"""
     import re
@@ -268,6 +268,10 @@ def shape_stage(ctx, res, nfonts, ntexts, as_failure=False, gen_kw=None, fontgen
                     res.failures.append({"harness": "h_seg", "mode": "shape", "line": ml, "impl": ibody[:300], "model": (m or "")[:300], "exe_args": [], "tag": "cursor-hyp",
                                          "font_hex": open(fonts[int(l.split("=")[1].split(",")[0])], "rb").read().hex(), "api_line": l,
                                          "why": "the loader accepted a font whose rule code fails the cursor tests (_out_index/_out_length bookkeeping of fetch_opcode): the hypothesis of no_write_through_a_null_cursor is not met, the machine may write through a null slot"})
+            if refusable and ibody.startswith("noface"):
+                # a generator that does not track the loader's tests: a font the loader refuses says nothing about the engine
+                res.count("shape:refused-by-the-loader")
+                continue
             pi = proj_dump(ibody)
             if i.startswith(("CRASH", "fault")):
                 res.failures.append({"harness": "h_seg", "mode": "shape", "line": ml, "impl": i[:300], "model": m, "why": "crash / sanitizer fault (or hang) in gr_make_seg on a synthesised font", "tag": "fault",
